@@ -27,6 +27,12 @@ type Violation struct {
 	Observed    any             `json:"observed"`
 	Expected    any             `json:"expected"`
 	Explanation string          `json:"explanation"`
+	// Where it was found: a violation that depends on what the same process executed before (state carried
+	// between evaluations) only reproduces by re-running that shard.
+	Tier    string `json:"tier,omitempty"`
+	Shard   int    `json:"shard"`
+	NShards int    `json:"nshards,omitempty"`
+	Seed    int    `json:"seed"`
 }
 
 // KnownHit counts inputs attributed to a listed known finding.
@@ -143,7 +149,7 @@ func (r *Run) watchdog(replay bool) {
 			continue // not inside a named case: the harness itself is busy (enumeration, sorting)
 		}
 		raw, _ := json.Marshal(input)
-		v := Violation{Property: r.Property, Check: check + "/termination", Input: raw, Choices: choices,
+		v := Violation{Tier: r.Tier, Shard: r.Shard, NShards: r.NShards, Seed: r.Seed, Property: r.Property, Check: check + "/termination", Input: raw, Choices: choices,
 			Observed: fmt.Sprintf("no return within %d s", StallSeconds), Expected: "the evaluation returns a result or an error",
 			Explanation: "the implementation did not return from this case (infinite loop or deadlock)"}
 		if replay {
@@ -230,6 +236,7 @@ func (r *Run) Fail(check string, input any, choices []int, observed, expected an
 	r.Violations = append(r.Violations, Violation{
 		Property: r.Property, Check: check, Input: raw, Choices: choices,
 		Observed: observed, Expected: expected, Explanation: explanation,
+		Tier: r.Tier, Shard: r.Shard, NShards: r.NShards, Seed: r.Seed,
 	})
 }
 
